@@ -144,8 +144,13 @@ def finish(ctx, level_text, seed=0):
     evdir = os.environ.get("CW_EVIDENCE_DIR") or os.path.join(VERIF, "evidence")
     os.makedirs(evdir, exist_ok=True)
     replay_paths = []
+    rdir = os.path.join(evdir, "replay", pid)
+    if not bad and os.path.isdir(rdir):
+        # a replay file left by an earlier run on a different tree says nothing about this one
+        for f in os.listdir(rdir):
+            os.remove(os.path.join(rdir, f))
+        os.rmdir(rdir)
     if bad:
-        rdir = os.path.join(evdir, "replay", pid)
         os.makedirs(rdir, exist_ok=True)
         for f in os.listdir(rdir):
             os.remove(os.path.join(rdir, f))
